@@ -78,11 +78,17 @@ def run(ctx):
             mutators.auto_detect_theories(exprs)
             hp = strategy_hierarchical.get_passes()
             dp = strategy_ddmin.ddmin_passes()
+            hp2 = strategy_hierarchical.get_passes()      # strategy hybrid constructs the hierarchical passes AFTER the ddmin ones
         except (Exception, SystemExit) as e:  # noqa
             ctx.violation('impl-violation', input=json.dumps(dict(options=argv, text=text)), observed=f'{type(e).__name__}: {e}',
                           expected='options parsed, passes constructed')
             continue
         hier = [[type(m).__name__ for m in (p[0] if isinstance(p, tuple) else p)] for p in hp]
+        hier2 = [[type(m).__name__ for m in (p[0] if isinstance(p, tuple) else p)] for p in hp2]
+        if hier2 != hier:
+            ctx.violation('impl-violation', input=json.dumps(dict(options=argv, text=text)),
+                          observed=f'constructing the ddmin passes changes the hierarchical passes (hybrid): missing {sorted(set(sum(hier, [])) - set(sum(hier2, [])))}',
+                          expected='the enabled mutators do not depend on which strategy ran before')
         ddm = [[type(m).__name__ for m in p] for p in dp]
         rels = [[w_str(t), int(t in declared)] for t in theories]
         calls.append((40, [[w for _, w in seq], rels]))
@@ -117,6 +123,55 @@ def run(ctx):
         if problems:
             ctx.violation('impl-violation', input=json.dumps(dict(options=argv, declares=declared, text=text)), observed='; '.join(problems)[:1500],
                           expected='exactly the enabled mutators are scheduled', how_to_replay='./check C14 --replay <file>')
+    # TIE-H: in real runs the mutators of every hierarchical pass / ddmin task generator are exactly the model's
+    import e2e
+    import e2ejobs
+    rjobs = []
+    for k in range(24 if ctx.thorough else 6):
+        extra = rng.choice([[], ['--no-bv'], ['--disable-all', '--erase-node', '--constants'], ['--no-constants', '--no-arith-constants'],
+                            ['--disable-all', '--arithmetic'], ['--no-smtlib']])
+        rjobs.append(dict(e2ejobs.job(rng, strategy=['hybrid', 'hierarchical', 'ddmin'][k % 3], jobs=1, size='small', extra=extra), timeout=240))
+    rruns = e2e.run_many(rjobs)
+    tcalls, tmeta = [], []
+    for j, r in zip(rjobs, rruns):
+        if r.hung or r.rc != 0:
+            continue
+        optseq = []
+        for o in j['opts']:
+            if o == '--disable-all':
+                optseq.append([2])
+            elif o.startswith('--no-') and o[5:] in theories:
+                optseq.append([1, w_str(o[5:]), 0])
+            elif o.startswith('--') and o[2:] in theories:
+                optseq.append([1, w_str(o[2:]), 1])
+            elif o.startswith('--no-') and o[5:] in [m[2] for m in mopts]:
+                optseq.append([0, w_str(o[5:]), 0])
+            elif o.startswith('--') and o[2:] in [m[2] for m in mopts]:
+                optseq.append([0, w_str(o[2:]), 1])
+        exprs = impl.parse(j['text'])
+        ns = options.parse_options(mutators, ['in.smt2', 'out.smt2', 'cmd'])
+        setattr(options, '__PARSED_ARGS', ns)
+        rel = {}
+        for t, (mod, reg) in allm.items():
+            rel[t] = hasattr(mod, 'is_relevant') and any(mod.is_relevant(n) for n in impl.nodes.dfs(exprs, max_depth=1))
+        tcalls.append((40, [optseq, [[w_str(t), int(rel[t])] for t in theories]]))
+        tmeta.append((j, r))
+    for (j, r), got in zip(tmeta, model.batch(tcalls)):
+        m_hier = [[r_str(x) for x in p] for p in got[1]]
+        m_ddm = [[r_str(x) for x in p] for p in got[2]]
+        passes = {e['id']: e['mutators'] for e in r.ev('pass')}
+        ctx.case(['real-run', j['opts'], j['text']], True)
+        ctx.count('real runs (pass lists observed)')
+        for pid_, muts in passes.items():
+            if muts != m_hier[pid_]:
+                ctx.violation('impl-violation', input=json.dumps(dict(options=j['opts'], text=j['text'])),
+                              observed=f'hierarchical pass {pid_} of a real run uses {muts}; the enabled mutators give {m_hier[pid_]}',
+                              expected='exactly the enabled mutators are scheduled')
+        used = set(e['mutator'] for e in r.ev('taskgen'))
+        allowed = set(sum(m_ddm, []))
+        if not used <= allowed:
+            ctx.violation('impl-violation', input=json.dumps(dict(options=j['opts'], text=j['text'])),
+                          observed=f'ddmin used mutators that are not enabled: {sorted(used - allowed)}', expected='only enabled mutators')
     if ctx.thorough:
         shard = calls[:400:4]
         vm = model.vm_shard(shard, name='c14shard')
